@@ -84,6 +84,12 @@ def run_body(sub, case, agg, want_sig=None):
         raise
     except Exception as e:  # noqa
         origin, where, tb = triage_exception(e)
+        if origin == 'library' and type(e).__name__ == 'LinAlgError' and where and where.startswith('skfem/element/element_global.py'):
+            # globally defined elements invert a per-cell Vandermonde matrix in physical coordinates; on cell shapes outside
+            # the element's range (e.g. Q2-type spaces on non-parallelogram cells) it is singular: unsupported, not a defect
+            k = 'ElementGlobal: singular per-cell Vandermonde matrix'
+            agg.skipped[k] = agg.skipped.get(k, 0) + 1
+            return None
         if origin == 'library':
             ctx.fail('exception', tb, exc=type(e).__name__, where=where)
         else:
